@@ -7,7 +7,7 @@
 From Verif.Base Require Import Bytes.
 From Verif.Tlog Require Import Index Tree Spec6962 Sha Tile TileReader TileReaderOld TileSpec.
 From Verif.Tlog Require Import ProofsTree Sha TileProofs TileProofsSound TileProofsExtract TileProofsComplete TileProofsHonest.
-From Verif.Tlog Require Import TileProofsHonestRun TileProofsInst TileProofsPath6962 TileProofsTrue TileProofsOld.
+From Verif.Tlog Require Import TileProofsValid TileProofsHonestRun TileProofsInst TileProofsPath6962 TileProofsTrue TileProofsOld.
 From Verif.Tlog Require Import ProofsStore TilePathProofsBij NewTilesProofs NewTilesProofsData.
 
 (* Every hash returned and EVERY tile handed to SaveTiles is authenticated (for every hash function). *)
@@ -312,3 +312,12 @@ Proof.
     + repeat constructor.
   - unfold tree_tile; cbn. repeat split; lia.
 Qed.
+
+(* Every tile ReadHashes plans (asks the TileReader for, and later saves) has valid coordinates. *)
+Theorem C10_planned_tiles_valid :
+  forall N h ix p t,
+    1 <= h <= 30 -> 0 <= N <= 2 ^ 62 -> make_plan N h ix = TOk p -> In t (p_tiles p) ->
+    (tH t = h /\ 0 <= tL t <= 62 /\ 0 <= tN t < 2 ^ 62 /\ 1 <= tW t <= 2 ^ h) /\
+    valid_tile t /\ valid_tile (mkTile (tH t) (tL t) (tN t) (2 ^ h)).
+Proof. exact make_plan_tiles_valid. Qed.
+Print Assumptions C10_planned_tiles_valid.
